@@ -261,6 +261,8 @@ fn main() {
                 "unitary" => circ::Alphabet::unitary(),
                 "small" => circ::Alphabet { oneq: vec!["S", "T", "NOT", "HAD"], phs: vec![3], threeq: vec![], ..circ::Alphabet::all() },
                 "small_unitary" => circ::Alphabet { oneq: vec!["S", "T", "NOT", "HAD"], phs: vec![3], ..circ::Alphabet::unitary() },
+                "ct" => circ::Alphabet { oneq: vec!["T", "HAD", "S"], twoq: vec!["CNOT", "CZ"], special: vec![], threeq: vec![], phs: vec![], pp: false },
+                "cth" => circ::Alphabet { oneq: vec!["T", "HAD"], twoq: vec!["CNOT"], special: vec![], threeq: vec![], phs: vec![], pp: false },
                 "ccz" => circ::Alphabet { oneq: vec!["T", "HAD"], twoq: vec!["CNOT", "SWAP"], phs: vec![], pp: false, special: vec!["PostSelect"], threeq: vec!["CCZ", "TOFF"] },
                 _ => panic!("alphabet"),
             };
@@ -329,10 +331,12 @@ fn main() {
             let al = al_of(&arg_val(&args, "--alphabet").unwrap_or("all".into()));
             let maxq: usize = arg_num(&args, "--maxq", 3);
             let maxlen: usize = arg_num(&args, "--maxlen", 8);
+            let minlen: usize = arg_num(&args, "--minlen", 0);
+            let minq: usize = arg_num(&args, "--minq", 1);
             use rand::Rng;
             for _ in 0..nrand {
-                let n = r.random_range(1..=maxq);
-                let len = r.random_range(0..=maxlen);
+                let n = r.random_range(minq..=maxq);
+                let len = r.random_range(minlen..=maxlen);
                 let mut al2 = al.clone();
                 if n < 3 {
                     al2.threeq = vec![];
